@@ -137,6 +137,12 @@ pub(crate) fn serialize_text<'a, N: Normalizer>(
                 change = true;
                 result.push_str("&gt;")
             }
+            // a literal carriage return would be normalized to a line feed
+            // when the text is parsed again
+            '\r' => {
+                change = true;
+                result.push_str("&#xD;")
+            }
             '>' if unescaped_gt => {
                 change = true;
                 // take last two characters added to result
@@ -239,6 +245,20 @@ pub(crate) fn serialize_attribute<'a, N: Normalizer>(
             '"' => {
                 change = true;
                 result.push_str("&quot;")
+            }
+            // literal whitespace other than space would be normalized to a
+            // space when the attribute value is parsed again
+            '\t' => {
+                change = true;
+                result.push_str("&#x9;")
+            }
+            '\n' => {
+                change = true;
+                result.push_str("&#xA;")
+            }
+            '\r' => {
+                change = true;
+                result.push_str("&#xD;")
             }
             _ => result.push(c),
         }
